@@ -4,9 +4,12 @@
 // It offers every byte string of up to three bytes to the commitment-time decoder and to the expression decoder
 // (Core jets): decoding must not panic, and whatever the commitment-time decoder accepts must re-encode to exactly the
 // input; an expression that decodes and has no repeated sub-expression must re-encode to the input as well.
-use crate::jet::Core;
+use crate::jet::{Core, CoreEnv};
+use crate::types::Final;
 use crate::node::{CommitNode, ConstructNode, CoreConstructible, DisconnectConstructible, RedeemNode, WitnessConstructible};
 use crate::types;
+use crate::dag::{DagLike, InternalSharing};
+use crate::node::Inner;
 use crate::{BitIter, FailEntropy, HasCmr, Value, Word};
 use std::sync::Arc;
 
@@ -46,7 +49,15 @@ fn try_redeem(prog: &[u8], wit: &[u8], fails: &mut Vec<String>) {
     let (p, w) = (prog.to_vec(), wit.to_vec());
     let res = std::panic::catch_unwind(move || {
         match RedeemNode::decode::<_, _, Core>(BitIter::from(&p[..]), BitIter::from(&w[..])) {
-            Ok(prog) => Some(prog.to_vec_with_witness()),
+            Ok(prog) => {
+                // C12: every witness of a decoded redemption program has its node's target type
+                for data in prog.as_ref().post_order_iter::<InternalSharing>() {
+                    if let Inner::Witness(v) = data.node.inner() {
+                        assert!(v.is_of_type(&data.node.arrow().target), "ILL-TYPED WITNESS {} at a node of target type {}", v, data.node.arrow().target);
+                    }
+                }
+                Some(prog.to_vec_with_witness())
+            }
             Err(_) => None,
         }
     });
@@ -125,11 +136,98 @@ fn encode_then_decode(fails: &mut Vec<String>) {
     });
 }
 
+/// redemption programs with witnesses of several inferred types: serialise, decode, compare everything. Every program is
+/// built in an inference context of its own (a node shared between programs would tie their types together).
+fn redeem_round_trips(fails: &mut Vec<String>) {
+    type N<'b> = Arc<ConstructNode<'b>>;
+    fn build<'b>(ctx: &types::Context<'b>, k: usize) -> Option<(&'static str, N<'b>)> {
+        let wit = || N::witness(ctx, None::<Value>);
+        let unit = N::unit(ctx);
+        // witness target types: 1, 1 x 1 (zero width, not unit), 2^8 x 2^8, (A+B) x C, 2^64 x 2^64, two witnesses
+        Some(match k {
+            0 => ("comp witness unit", N::comp(&wit(), &unit).ok()?),
+            1 => ("comp witness (take unit)", N::comp(&wit(), &N::take(&unit)).ok()?),
+            2 => ("comp (comp witness jet_add_8) unit", N::comp(&N::comp(&wit(), &N::jet(ctx, &Core::Add8)).ok()?, &unit).ok()?),
+            3 => ("comp witness (case (drop unit) (drop unit))", N::comp(&wit(), &N::case(&N::drop_(&unit), &N::drop_(&N::unit(ctx))).ok()?).ok()?),
+            4 => ("comp (comp witness jet_eq_64) unit", N::comp(&N::comp(&wit(), &N::jet(ctx, &Core::Eq64)).ok()?, &unit).ok()?),
+            5 => (
+                "comp (comp (pair witness witness) jet_add_8) unit",
+                N::comp(&N::comp(&N::pair(&wit(), &wit()).ok()?, &N::jet(ctx, &Core::Add8)).ok()?, &unit).ok()?,
+            ),
+            // witness of type 2^16 + 2^8 (sum with unequal branches), explicit values on either side, then pruned
+            6 | 7 => {
+                let v = if k == 6 {
+                    Value::left(Value::u16(0), Final::two_two_n(3).unwrap())
+                } else {
+                    Value::right(Final::two_two_n(4).unwrap(), Value::u8(0))
+                };
+                let input = N::pair(&N::witness(ctx, Some(v)), &unit).ok()?;
+                let process = N::case(&N::take(&N::jet(ctx, &Core::IsZero16)), &N::take(&N::jet(ctx, &Core::IsZero8))).ok()?;
+                let tail = N::comp(&process, &N::jet(ctx, &Core::Verify)).ok()?;
+                ("comp (pair witness unit) (comp (case (take is_zero_16) (take is_zero_8)) verify)", N::comp(&input, &tail).ok()?)
+            }
+            _ => return None,
+        })
+    }
+    for k in 0..8 {
+        types::Context::with_context(|ctx| {
+            let (name, e) = match build(&ctx, k) {
+                Some(x) => x,
+                None => return,
+            };
+            let redeem = match e.finalize_unpruned() {
+                Ok(r) => r,
+                Err(_) => return,
+            };
+            // C12 / C08: pruning for an environment keeps every witness well typed and the result round-trips too
+            if let Ok(pruned) = redeem.prune(&CoreEnv::new()) {
+                let ok = pruned.as_ref().post_order_iter::<InternalSharing>().all(|d| match d.node.inner() {
+                    Inner::Witness(v) => v.is_of_type(&d.node.arrow().target),
+                    _ => true,
+                });
+                if !ok {
+                    fails.push(format!("program `{}`: after prune() a witness does not have its node's target type", name));
+                }
+                let (pp, pw) = pruned.to_vec_with_witness();
+                match RedeemNode::decode::<_, _, Core>(BitIter::from(&pp[..]), BitIter::from(&pw[..])) {
+                    Ok(back) if back.to_vec_with_witness() == (pp.clone(), pw.clone()) => {}
+                    Ok(_) => fails.push(format!("program `{}` pruned ({:02x?} / {:02x?}) re-encodes differently after decoding", name, pp, pw)),
+                    Err(e) => fails.push(format!("program `{}` pruned serialises as {:02x?} / {:02x?}, which does not decode: {}", name, pp, pw, e)),
+                }
+            }
+            let (pb, wb) = redeem.to_vec_with_witness();
+            let (p2, w2) = (pb.clone(), wb.clone());
+            let res = std::panic::catch_unwind(move || {
+                RedeemNode::decode::<_, _, Core>(BitIter::from(&p2[..]), BitIter::from(&w2[..])).map(|back| {
+                    let ok_types = back.as_ref().post_order_iter::<InternalSharing>().all(|d| match d.node.inner() {
+                        Inner::Witness(v) => v.is_of_type(&d.node.arrow().target),
+                        _ => true,
+                    });
+                    (back.cmr(), back.to_vec_with_witness(), ok_types)
+                })
+            });
+            match res {
+                Err(_) => fails.push(format!("program `{}` ({:02x?} / {:02x?}): decoding PANICS", name, pb, wb)),
+                Ok(Err(e)) => fails.push(format!("program `{}` serialises as {:02x?} / {:02x?}, which does not decode: {}", name, pb, wb, e)),
+                Ok(Ok((cmr, bytes, ok_types))) => {
+                    if cmr != redeem.cmr() || bytes != (pb.clone(), wb.clone()) {
+                        fails.push(format!("program `{}` ({:02x?} / {:02x?}) comes back with root {} and bytes {:02x?}", name, pb, wb, cmr, bytes));
+                    }
+                    if !ok_types {
+                        fails.push(format!("program `{}` ({:02x?} / {:02x?}): a decoded witness does not have its node's target type", name, pb, wb));
+                    }
+                }
+            }
+        });
+    }
+}
+
 #[test]
 fn c02_codec_replay() {
     std::panic::set_hook(Box::new(|_| {}));
     let mut fails = Vec::new();
     encode_then_decode(&mut fails);
+    redeem_round_trips(&mut fails);
     for a in 0u32..256 {
         try_one(&[a as u8], &mut fails);
         for w in [&[][..], &[0x00][..], &[0x80][..]] {
